@@ -199,6 +199,7 @@ func C17_Fault_Writes() {
 	}
 	j := vChoice("failAt", maxJ+1)
 	c0 := h.db.calls
+	w0 := h.db.writes
 	h.db.failAt = c0 + j
 	var err error
 	switch op {
@@ -246,6 +247,15 @@ func C17_Fault_Writes() {
 	// reported failure: the store reopens to the state before or after the operation
 	r := c05Recover(h)
 	lv, lerr := r.tree.Load()
+	if h.thr > 0 && h.db.writes-w0 >= 1 {
+		// regions of findings F3 / F15 (seen through a failing write instead of a stop): the flush threshold
+		// split the operation's batch and an earlier part of it had already reached the store
+		if op == 0 {
+			vRegion("F3:commit-interrupted-between-its-physical-writes-leaves-a-mixed-state")
+		} else if op == 2 {
+			vRegion("F15:rollback-to-version-interrupted-between-its-physical-writes-leaves-a-mixed-state")
+		}
+	}
 	vAssert(lerr == nil, "c17:reopen-after-reported-failure")
 	if lerr != nil {
 		return
